@@ -1422,6 +1422,7 @@ def run_callee(chk, F, collectors, rid="R-CALLEE"):
     ed = F.resolve_method("UTAP::ExpressionBuilder", "expr_dot")
     if ed is None or ed.get("body") is None:
         raise AnalysisBroken("ExpressionBuilder::expr_dot not found")
+    ed = expanded_fn(ed, F, accept=lambda t: bool(t.get("static")) and not t.get("cls"), maxdepth=2)
     shapes = set()
     for c in calls(ed["body"]):
         if not (c.get("fn") or "").startswith("UTAP::expression_t::create_"):
